@@ -95,6 +95,10 @@ def judge(c, r, tc, root):
                                          r["rc"], c["call"], out.strip().splitlines()[-1][:300])))
         return problems, notes
     # exit 0
+    if c.get("mustfail"):
+        problems.append(("C09/unresolvable-call-ignored", "exit 0%s although a derive call of the package can never be generated for (%s)" % (
+            "" if out.strip() else " without any message", c["what"])))
+        return problems, notes
     j = tc.get(c["dir"])
     has_derived = os.path.exists(os.path.join(root, c["dir"], "derived.gen.go"))
     if j is not None and not has_derived and (c.get("mustok") or c.get("tag")) and not c["userbad"] and (j["parse"] or j["types"]):
@@ -208,10 +212,10 @@ def run(rep):
                 rep.cov["samples"].append({"case": c["dir"], "family": c["family"], "plugin": c["plugin"], "input": c["what"],
                                            "rc": r["rc"], "stderr": r["out"].strip()[-200:]})
         # ---- accepted element types that are comparable only at run time: the package's own probe test must pass
-        probes = [(c, r) for c, r in zip(cases, results) if c.get("tag") == "probe" and r["rc"] == 0 and not r["timeout"]
+        probe_cases = [(c, r) for c, r in zip(cases, results) if c.get("tag") == "probe" and r["rc"] == 0 and not r["timeout"]
                   and os.path.exists(os.path.join(root, c["dir"], "derived.gen.go")) and not (tc.get(c["dir"], {}).get("types") or tc.get(c["dir"], {}).get("parse"))]
         probe_fail = []
-        for c, r in probes:
+        for c, r in probe_cases:
             p = common.sh(["go", "test", "-count=1", "./" + c["dir"]], cwd=root, timeout=300)
             if p.returncode != 0:
                 line = next((l for l in (p.stdout + p.stderr).splitlines() if "panic:" in l), (p.stdout + p.stderr).strip()[-200:])
@@ -219,7 +223,7 @@ def run(rep):
                 # interface on a dynamic value that cannot be hashed): recorded, not judged
                 probe_fail.append("%s over %s: accepted; go test: %s" % (c["call"], c["what"], line.strip()[:160]))
         rep.cov["probe_tests_failing_at_run_time_not_judged"] = probe_fail
-        rep.cov["probe_tests_run"] = len(probes)
+        rep.cov["probe_tests_run"] = len(probe_cases)
 
         # ---- several packages in one invocation: the run fails iff one of the named packages fails, wherever the
         # failing package stands among the arguments and in the processing (path) order
